@@ -126,8 +126,17 @@ def run(ctx):
             if kind == 'fixed':
                 prog = CU.rand_program(rng, n, rng.randrange(1, 8), kinds=('gen', 'fmap', 'named', 'cnot'))
                 circ = CI.CliffordCircuit(n)
+                mid = 'sh%d' % _
+                ctx.drv.ask('circ %s new %d' % (mid, n))
                 for d in prog:
-                    circ.take(CU.impl_gate(impl, d))
+                    circ.take(CU.impl_gate(impl, d)); CU.model_take(ctx.drv, mid, d)
+                # the POVM itself: back-evolved zero state
+                pv = next(iter(circ.povm(1)))
+                ansp = ctx.drv.ask('circ %s povm -' % mid)
+                ctx.count('corr:povm')
+                mvp = H.drows_ops(ansp.split(' ')[2]) if ansp.startswith('ok ') else ansp
+                if mvp != impl.ops_of(pv):
+                    ctx.mismatch('CliffordCircuit.povm', 'circ povm', str(mvp)[:600], str(impl.ops_of(pv))[:600], dict(program=prog))
             elif kind == 'onsite':
                 circ = CI.onsite_rcc(n)
             elif kind == 'global':
@@ -165,6 +174,30 @@ def run(ctx):
             if ov == 0.0:
                 ctx.fail('ClassicalShadow.snapshots', 'snapshot has zero overlap with the measured state', dict(rows=rows, r=r, kind=kind, snap=srows))
             if kind == 'fixed':
+                # correspondence: the model's snapshot with the coins that explain the observed snapshot
+                pulls = [CU.oracle_backward(prog, [(tuple('Z' if i == q else 'I' for i in range(n)), 0)])[0] for q in range(n)]
+                cur, coins, okc = list(act), [], True
+                for pl in pulls:
+                    sg = O.in_group_sign(srows[0:n], pl)
+                    if sg is None:
+                        okc = False
+                        break
+                    o_ = 0 if sg == 1 else 1
+                    k_, d_, new_ = O.measure_spec(cur, n, pl, random_out=o_)
+                    if k_ != 'determined':
+                        coins.append(((pl[1] + 2 * o_) % 4) // 2)
+                    cur = new_
+                if okc:
+                    ans = ctx.drv.ask('circ %s snapshot %d %s %s -' % (mid, r, H.erows_ops(rows), E.ebits(coins)))
+                    ctx.count('corr:snapshot'); ctx.traces += 1
+                    if ans.startswith('ok '):
+                        w_ = ans.split(' ')
+                        mv = (int(w_[1]), O.canon_group(H.drows_ops(w_[2])[int(w_[1]):n])[0], int(w_[5]))
+                    else:
+                        mv = ans
+                    iv = (sr, O.canon_group(srows[sr:n])[0], 0)
+                    if mv != iv:
+                        ctx.mismatch('ClassicalShadow.snapshots', 'circ snapshot', str(mv)[:600], str(iv)[:600], dict(rows=rows, r=r, program=prog, coins=coins))
                 # stabilized up to sign by the back-evolved computational basis: Z_k pulled back through the circuit
                 for q in range(n):
                     z = (tuple('Z' if i == q else 'I' for i in range(n)), 0)
